@@ -123,6 +123,8 @@ fn ids_of(m: &Value, key: &str) -> Vec<u32> {
 pub struct Run<'a> {
     /// unconstrained joins: number of items delivered
     pub count: std::cell::Cell<Option<u64>>,
+    /// parallel joins: what `par_join().count()` returned (asked before the items are driven)
+    pub pcount: std::cell::Cell<Option<u64>>,
     /// unconstrained joins with an index-valued member: the indices whose items are recorded
     pub watch: Vec<u32>,
     pub variant: &'a str,
@@ -182,6 +184,8 @@ macro_rules! drive {
     (@par yes, $run:ident, $tuple:expr, |$pat:pat_param| $body:expr) => {{
         let pool = rayon::ThreadPoolBuilder::new().num_threads($run.threads.max(1)).build().unwrap();
         let out = Mutex::new(Vec::<Value>::new());
+        // rayon's consumers are provided methods an implementation may override: the plain count first
+        $run.pcount.set(Some(pool.install(|| ($tuple).par_join().count()) as u64));
         if $run.threads % 2 == 1 {
             // map + collect instead of for_each
             let v: Vec<Value> = pool.install(|| ($tuple).par_join().map(|$pat| json!($body)).collect());
@@ -538,10 +542,11 @@ pub fn run_script(script: &Value) -> Value {
     watch.extend([0u32, 1, 63, 64, 4095, 4096, 262143, 262144, (1 << 24) - 1]);
     watch.sort();
     watch.dedup();
-    let run = Run { count: std::cell::Cell::new(None), watch, variant: &variant, threads, tree, probe };
+    let run = Run { count: std::cell::Cell::new(None), pcount: std::cell::Cell::new(None), watch, variant: &variant, threads, tree, probe };
     let ents_js: Vec<Value> = live.iter().map(|&e| ej(e)).collect();
     let r = catch(|| exec_shape(&mut s, &shape, &run));
     let (ucount, uwatch) = (run.count.get(), run.watch.clone());
+    let pcount = run.pcount.get();
     if let Some(c) = s.world.remove::<ChangeSet<Amt>>() {
         s.csets[0] = Some(c);
     }
@@ -586,6 +591,9 @@ pub fn run_script(script: &Value) -> Value {
     }
     let mut ev = json!({"op":"Join","tid":script["tid"],"shape":shape,"variant":variant,"threads":threads,
            "mem":mem_js,"ents":ents_js,"items":sorted,"gets":gets,"after":after,"panic":""});
+    if let Some(n) = pcount {
+        ev.as_object_mut().unwrap().insert("pcount".into(), json!(n));
+    }
     if let Some(n) = ucount {
         let m = ev.as_object_mut().unwrap();
         m.insert("count".into(), json!(n));
